@@ -1,9 +1,145 @@
+/-
+  Driver ops of group `catalog` (C22).
+
+    cat <step>;<step>;…        a whole history on `HashMapTreeCatalog::new()`; one result per step
+    szc <entry> <step>;…       `SingleZoneCatalog::new(entry)`; steps `l:`/`g:` only
+
+  steps
+    i:<namehex>:<class>:<id>:<kind>    insert (kind L = Loaded, N = NotYetLoaded, F = FailedToLoad);
+                                       result = the replaced entry or `-`
+    r:<namehex>:<class>                remove; result = the removed entry or `-`
+    l:<namehex>:<class>                lookup (longest match); result = entry or `-`
+    g:<namehex>:<class>                get (exact); result = entry or `-`
+    it                                 iter; result = the entries, sorted, joined by `,` (or `-`)
+
+  entry = `<namehex>:<class>:<id>:<kind>`; names are uncompressed wire form in hex (`00` = root).
+  Reply `ok r1;r2;…` in both columns: the model column runs `QV.Model.Catalog`, the spec column
+  runs the finite map of `QV.Spec.Catalog` on the same history.
+-/
 import QV.Driver.Util
+import QV.Model.Catalog
+import QV.Spec.Catalog
 
 namespace QV.Driver
-open QV
+open QV QV.Catalog
 
-/-- ops of group `catalog` — stub (not built yet) -/
-def catalogHandler : Handler := fun _ _ => none
+namespace Cat
+
+/-- uncompressed wire form → labels (root label dropped) -/
+def labelsOfWire : Nat → List UInt8 → Option DName
+  | 0, _ => none
+  | fuel + 1, bs =>
+    match bs with
+    | [] => none
+    | len :: rest =>
+      if len = 0 then (if rest.isEmpty then some [] else none)
+      else if len.toNat > 63 ∨ rest.length < len.toNat then none
+      else (labelsOfWire fuel (rest.drop len.toNat)).map (fun r => rest.take len.toNat :: r)
+
+def parseName (s : String) : Option DName :=
+  (unhex s).bind (fun b => labelsOfWire (b.size + 1) b.toList)
+
+def wireOf (n : DName) : List UInt8 :=
+  n.foldr (fun l acc => UInt8.ofNat l.length :: l ++ acc) [0]
+
+def parseKind (s : String) : Option Kind :=
+  if s = "L" then some .Loaded else if s = "N" then some .NotYetLoaded
+  else if s = "F" then some .FailedToLoad else none
+
+def showKind : Kind → String
+  | .Loaded => "L" | .NotYetLoaded => "N" | .FailedToLoad => "F"
+
+def showEntry (e : Entry Nat) : String :=
+  s!"{hexOfList (wireOf e.name)}:{e.cls}:{e.md}:{showKind e.kind}"
+
+def showOptEntry : Option (Entry Nat) → String
+  | some e => showEntry e
+  | none => "-"
+
+def showEntries (l : List (Entry Nat)) : String :=
+  if l.isEmpty then "-" else
+  ",".intercalate ((l.map showEntry).toArray.qsort (· < ·)).toList
+
+def parseEntry (f : List String) : Option (Entry Nat) :=
+  match f with
+  | [n, c, i, k] => do
+    let n ← parseName n
+    let c ← c.toNat?
+    let i ← i.toNat?
+    let k ← parseKind k
+    pure ⟨n, c, k, if k = .Loaded then i else 0, i⟩
+  | _ => none
+
+inductive Step where
+  | ins (e : Entry Nat)
+  | rem (n : DName) (c : Nat)
+  | look (n : DName) (c : Nat)
+  | get (n : DName) (c : Nat)
+  | iter
+
+def parseStep (s : String) : Option Step :=
+  match s.splitOn ":" with
+  | ["it"] => some .iter
+  | "i" :: rest => (parseEntry rest).map .ins
+  | [op, n, c] => do
+    let n ← parseName n
+    let c ← c.toNat?
+    if op = "r" then pure (.rem n c) else if op = "l" then pure (.look n c)
+    else if op = "g" then pure (.get n c) else none
+  | _ => none
+
+def parseSteps (s : String) : Option (List Step) := (s.splitOn ";").mapM parseStep
+
+/-- model column -/
+def runModel : QV.Catalog.Cat Nat → List Step → List String
+  | _, [] => []
+  | c, .ins e :: r => let x := QV.Catalog.insert c e; showOptEntry x.2 :: runModel x.1 r
+  | c, .rem n k :: r => let x := QV.Catalog.remove c n k; showOptEntry x.2 :: runModel x.1 r
+  | c, .look n k :: r => showOptEntry (QV.Catalog.lookup c n k) :: runModel c r
+  | c, .get n k :: r => showOptEntry (QV.Catalog.get c n k) :: runModel c r
+  | c, .iter :: r => showEntries (QV.Catalog.iter c) :: runModel c r
+
+open QV.Spec.Catalog in
+/-- spec column: the finite map -/
+def runSpec : SMap (Entry Nat) → List Step → List String
+  | _, [] => []
+  | m, .ins e :: r =>
+    let k : Key := (e.cls, foldName e.name)
+    showOptEntry (sfind m k) :: runSpec (sinsert m k e) r
+  | m, .rem n c :: r =>
+    let k : Key := (c, foldName n)
+    showOptEntry (sfind m k) :: runSpec (serase m k) r
+  | m, .look n c :: r => showOptEntry (specLookup m n c) :: runSpec m r
+  | m, .get n c :: r => showOptEntry (specGet m n c) :: runSpec m r
+  | m, .iter :: r => showEntries (specIter m) :: runSpec m r
+
+def runSzModel (e : Entry Nat) : List Step → Option (List String)
+  | [] => some []
+  | .look n k :: r => (runSzModel e r).map (showOptEntry (szLookup e n k) :: ·)
+  | .get n k :: r => (runSzModel e r).map (showOptEntry (szGet e n k) :: ·)
+  | _ => none
+
+end Cat
+
+open Cat in
+def catalogHandler : Handler := fun op args =>
+  match op, args with
+  | "cat", [h] =>
+    match parseSteps h with
+    | some steps =>
+      some ("ok " ++ ";".intercalate (runModel QV.Catalog.Cat.empty steps),
+            "ok " ++ ";".intercalate (runSpec [] steps))
+    | none => some bad
+  | "szc", [e, h] =>
+    match parseEntry (e.splitOn ":"), parseSteps h with
+    | some e, some steps =>
+      match runSzModel e steps with
+      | some rs =>
+        some ("ok " ++ ";".intercalate rs,
+              "ok " ++ ";".intercalate
+                (runSpec (QV.Spec.Catalog.single (e.cls, QV.Spec.Catalog.foldName e.name) e) steps))
+      | none => some bad
+    | _, _ => some bad
+  | _, _ => none
 
 end QV.Driver
